@@ -481,6 +481,9 @@ theorem mdStep_spec (bs : List Nat) (src : List Char) (inner : List Char → Exc
       obtain ⟨hb, hfit⟩ := hleafpos n (by simp [hev, leafLen, hact])
       have hre := ci_le bs e.re
       have htc : c'.char = ci bs e.rs := by rw [hchar, hb]
+      have hmin1 : min (c'.char + n) src.length = c'.char + n := by rw [htc]; omega
+      have hmin2 : min c'.char (c'.char + n) = c'.char := by omega
+      simp only [hmin1, hmin2]
       have hsl : sliceE src c'.char (c'.char + n) = .ok ((src.drop c'.char).take (c'.char + n - c'.char)) := by
         unfold sliceE
         rw [if_neg (by rw [htc]; omega)]
@@ -597,6 +600,226 @@ theorem mdLoop_spec (bs : List Nat) (src : List Char) (inner : List Char → Exc
       · exact ho.zw hs.1 t h h0
       · exact hz hs.2 t h h0
 
+/-! ### the final clamp-and-drop pass -/
+
+/-- whatever the tokens are: if the pass returns, every token it returns is a well-formed span
+inside the text -/
+theorem clampAll_inb (n : Nat) : ∀ (toks out : List Tok), clampAll n toks = .ok out →
+    ∀ t ∈ out, InB n t := by
+  intro toks
+  induction toks with
+  | nil => intro out h; simp only [clampAll] at h; cases h; simp
+  | cons x xs ih =>
+    intro out h
+    simp only [clampAll, bind, Except.bind] at h
+    cases hx : clampTok n x with
+    | error e => rw [hx] at h; cases h
+    | ok r =>
+      rw [hx] at h
+      simp only at h
+      cases hr : clampAll n xs with
+      | error e => rw [hr] at h; cases h
+      | ok rest =>
+        rw [hr] at h
+        simp only [pure, Except.pure] at h
+        cases h
+        have hrest := ih rest hr
+        cases r with
+        | none => exact hrest
+        | some t' =>
+          intro t ht
+          rcases List.mem_cons.mp ht with rfl | ht
+          · unfold clampTok at hx
+            split at hx
+            · cases hx
+            · simp only at hx
+              split at hx
+              · cases hx
+                simp only [InB]
+                omega
+              · cases hx
+          · exact hrest t ht
+
+/-- it cannot panic on well-formed spans -/
+theorem clampAll_total (n : Nat) : ∀ (toks : List Tok), (∀ t ∈ toks, t.span.start ≤ t.span.stop) →
+    ∃ out, clampAll n toks = .ok out := by
+  intro toks
+  induction toks with
+  | nil => intro _; exact ⟨[], rfl⟩
+  | cons x xs ih =>
+    intro h
+    obtain ⟨rest, hr⟩ := ih (fun t ht => h t (List.mem_cons_of_mem _ ht))
+    have hx := h x List.mem_cons_self
+    simp only [clampAll, clampTok, bind, Except.bind, hr]
+    rw [if_neg (by omega)]
+    exact ⟨_, rfl⟩
+
+/-- and it changes nothing when every token already is inside the text -/
+theorem clampAll_id (n : Nat) : ∀ (toks : List Tok), (∀ t ∈ toks, InB n t) →
+    clampAll n toks = .ok toks := by
+  intro toks
+  induction toks with
+  | nil => intro _; rfl
+  | cons x xs ih =>
+    intro h
+    have hr := ih (fun t ht => h t (List.mem_cons_of_mem _ ht))
+    obtain ⟨h1, h2⟩ := h x List.mem_cons_self
+    simp only [clampAll, clampTok, bind, Except.bind, hr]
+    rw [if_neg (by omega)]
+    have e1 : min x.span.stop n = x.span.stop := by omega
+    have e2 : min x.span.start x.span.stop = x.span.start := by omega
+    simp only [e1, e2, pure, Except.pure]
+    have hx : (⟨⟨x.span.start, x.span.stop⟩, x.kind⟩ : Tok) = x := by
+      cases x with | mk sp k => cases sp; rfl
+    rw [hx]
+    by_cases he : x.span.start = x.span.stop
+    · simp [he]
+    · have : (x.span.start == x.span.stop) = false := by simp [he]
+      have h3 : (x.span.start != x.span.stop) = true := by simp [he]
+      simp [this, h3]
+
+/-! ### no panic for ANY event list whose starts can be sliced -/
+
+/-- the byte cursor is a character boundary inside the text -/
+structure CurB (bs : List Nat) (c : Cursor) : Prop where
+  le : c.byte ≤ bs.length
+  bd : isBoundary bs c.byte = true
+
+theorem mdAdvance_weak (bs : List Nat) (c : Cursor) (rs : Nat) (hc : CurB bs c)
+    (h : rs ≤ c.byte ∨ (rs ≤ bs.length ∧ isBoundary bs rs = true)) :
+    ∃ c', mdAdvance bs c rs = .ok c' ∧ CurB bs c' ∧ c'.byte = max c.byte rs := by
+  unfold mdAdvance
+  by_cases hgt : rs > c.byte
+  · have ⟨h1, h2⟩ : rs ≤ bs.length ∧ isBoundary bs rs = true := by
+      rcases h with h | h
+      · omega
+      · exact h
+    have hs : sliceCount bs c.byte rs = .ok (charCount ((bs.drop c.byte).take (rs - c.byte))) := by
+      unfold sliceCount
+      rw [if_pos ⟨by omega, h1, hc.bd, h2⟩]
+    rw [if_pos hgt, hs]
+    refine ⟨⟨c.char + charCount ((bs.drop c.byte).take (rs - c.byte)), rs⟩, rfl, ⟨h1, h2⟩, ?_⟩
+    show rs = max c.byte rs
+    omega
+  · rw [if_neg hgt]
+    exact ⟨c, rfl, hc, by omega⟩
+
+theorem mdStep_total (bs : List Nat) (src : List Char) (inner : List Char → Except Panic (List Tok))
+    (ilt : Bool) (hin : InnerOK inner) (c : Cursor) (st : List MdTag) (e : MdEvent) (hc : CurB bs c)
+    (h : e.rs ≤ c.byte ∨ (e.rs ≤ bs.length ∧ isBoundary bs e.rs = true)) :
+    ∃ c' ts, mdStep bs src inner ilt c st e = .ok (c', ts) ∧ CurB bs c' ∧ c'.byte = max c.byte e.rs ∧
+      ∀ t ∈ ts, t.span.start ≤ t.span.stop := by
+  obtain ⟨c', hadv, hc', hbyte⟩ := mdAdvance_weak bs c e.rs hc h
+  have hone : ∀ (k : Kind) (n : Nat), ∀ t ∈ [(⟨spanWithLen c'.char n, k⟩ : Tok)], t.span.start ≤ t.span.stop := by
+    intro k n t ht
+    simp only [List.mem_singleton] at ht; subst ht
+    simp [spanWithLen]
+  unfold mdStep
+  simp only [hadv, bind, Except.bind]
+  cases hev : e.ev with
+  | softBreak => exact ⟨c', _, rfl, hc', hbyte, hone _ _⟩
+  | hardBreak => exact ⟨c', _, rfl, hc', hbyte, hone _ _⟩
+  | start tag =>
+    by_cases hl : tag = .List
+    · subst hl; exact ⟨c', _, rfl, hc', hbyte, hone _ _⟩
+    · refine ⟨c', [], ?_, hc', hbyte, by simp⟩
+      cases tag <;> first | rfl | exact absurd rfl hl
+  | stop tag =>
+    refine ⟨c', _, rfl, hc', hbyte, ?_⟩
+    intro t ht
+    split at ht
+    · exact hone _ _ t ht
+    · cases ht
+  | code n => exact ⟨c', _, rfl, hc', hbyte, hone _ _⟩
+  | html n => exact ⟨c', _, rfl, hc', hbyte, hone _ _⟩
+  | other => exact ⟨c', [], rfl, hc', hbyte, by simp⟩
+  | text n =>
+    cases hact : textAct ilt st.head? with
+    | skip => exact ⟨c', [], rfl, hc', hbyte, by simp⟩
+    | unlintable => exact ⟨c', _, rfl, hc', hbyte, hone _ _⟩
+    | parse =>
+      -- the clamped slice of the source is always in range
+      have hsl : ∃ chunk, sliceE src (min c'.char (min (c'.char + n) src.length))
+          (min (c'.char + n) src.length) = .ok chunk := by
+        unfold sliceE
+        rw [if_neg (by omega)]
+        exact ⟨_, rfl⟩
+      obtain ⟨chunk, hsl⟩ := hsl
+      obtain ⟨toks, hinn, htile⟩ := hin chunk
+      obtain ⟨hf1, _⟩ := tiles_facts toks 0 chunk.length htile
+      simp only [hsl, hinn]
+      refine ⟨c', _, rfl, hc', hbyte, ?_⟩
+      intro t ht
+      obtain ⟨u, hu, rfl⟩ := List.mem_map.mp ht
+      have := hf1 u hu
+      simp only [Tok.shift, Span.pushBy]
+      omega
+
+theorem mdLoop_total (bs : List Nat) (src : List Char) (inner : List Char → Except Panic (List Tok))
+    (ilt : Bool) (hin : InnerOK inner) :
+    ∀ (es : List MdEvent) (c : Cursor) (st : List MdTag), CurB bs c → startsOK bs c.byte es = true →
+      ∃ toks, mdLoop bs src inner ilt c st es = .ok toks ∧ ∀ t ∈ toks, t.span.start ≤ t.span.stop := by
+  intro es
+  induction es with
+  | nil => intro c st _ _; exact ⟨[], rfl, by simp⟩
+  | cons e es ih =>
+    intro c st hc hok
+    simp only [startsOK, Bool.and_eq_true, Bool.or_eq_true, decide_eq_true_eq] at hok
+    obtain ⟨hev, hrest⟩ := hok
+    obtain ⟨c', ts, hstep, hc', hbyte, hwf⟩ := mdStep_total bs src inner ilt hin c st e hc hev
+    rw [← hbyte] at hrest
+    obtain ⟨rest, hloop, hwf2⟩ := ih c' (stackAfter st e.ev) hc' hrest
+    refine ⟨ts ++ rest, ?_, ?_⟩
+    · simp only [mdLoop, hstep, hloop, bind, Except.bind, pure, Except.pure]
+    · intro t ht
+      rcases List.mem_append.mp ht with h | h
+      · exact hwf t h
+      · exact hwf2 t h
+
+/-- NO PANIC, for every event list whose starts are sliceable -/
+theorem mdParse_total_of_starts (bs : List Nat) (src : List Char)
+    (inner : List Char → Except Panic (List Tok)) (ilt : Bool) (events : List MdEvent)
+    (hin : InnerOK inner) (hst : StartsOK bs events) :
+    ∃ toks, mdParse bs src inner ilt events = .ok toks := by
+  obtain ⟨toks, hl, hwf⟩ := mdLoop_total bs src inner ilt hin events ⟨0, 0⟩ []
+    ⟨Nat.zero_le _, by simp [isBoundary]⟩ hst
+  have hsub : (wikilinkCleanup (popTrailingBreak src toks)).Sublist toks :=
+    (wikilinkCleanup_sublist _).trans (popTrailingBreak_sublist src toks)
+  obtain ⟨out, ho⟩ := clampAll_total src.length _ (fun t ht => hwf t (hsub.subset ht))
+  exact ⟨out, by simp only [mdParse, hl, bind, Except.bind]; exact ho⟩
+
+/-- IN BOUNDS, for EVERY event list and every inner parser: whatever `Markdown::parse` returns lies
+inside the text -/
+theorem mdParse_inb_of_ok (bs : List Nat) (src : List Char)
+    (inner : List Char → Except Panic (List Tok)) (ilt : Bool) (events : List MdEvent)
+    (toks : List Tok) (h : mdParse bs src inner ilt events = .ok toks) :
+    ∀ t ∈ toks, InB src.length t := by
+  simp only [mdParse, bind, Except.bind] at h
+  cases hl : mdLoop bs src inner ilt ⟨0, 0⟩ [] events with
+  | error e => rw [hl] at h; cases h
+  | ok raw =>
+    rw [hl] at h
+    exact clampAll_inb src.length _ toks h
+
+theorem eventOK_start {bs : List Nat} {cur le : Nat} {e : MdEvent} {leaf : Option Nat}
+    (h : eventOK bs cur le e leaf = true) :
+    (decide (e.rs ≤ cur) || (decide (e.rs ≤ bs.length) && isBoundary bs e.rs)) = true := by
+  rcases eventOK_adv h with h | ⟨h1, h2⟩
+  · simp [h]
+  · simp [h1, h2]
+
+/-- `EventsOK` implies `StartsOK` -/
+theorem eventsOK_startsOK (bs : List Nat) (ilt : Bool) : ∀ (es : List MdEvent) (cur le : Nat)
+    (st : List MdTag), eventsOK bs ilt cur le st es = true → startsOK bs cur es = true := by
+  intro es
+  induction es with
+  | nil => intros; rfl
+  | cons e es ih =>
+    intro cur le st h
+    simp only [eventsOK, Bool.and_eq_true] at h
+    simp only [startsOK, Bool.and_eq_true]
+    exact ⟨eventOK_start h.1, ih _ _ _ h.2⟩
+
 /-- `Markdown::parse` as a whole -/
 theorem mdParse_spec (bs : List Nat) (src : List Char) (inner : List Char → Except Panic (List Tok))
     (ilt : Bool) (events : List MdEvent) (hN : charCount bs = src.length) (hin : InnerOK inner)
@@ -606,11 +829,12 @@ theorem mdParse_spec (bs : List Nat) (src : List Char) (inner : List Char → Ex
   obtain ⟨toks, hl, hg, hz⟩ := mdLoop_spec bs src inner ilt hN hin events ⟨0, 0⟩ [] 0 (curOK_zero bs) hev
   have hsub : (wikilinkCleanup (popTrailingBreak src toks)).Sublist toks :=
     (wikilinkCleanup_sublist _).trans (popTrailingBreak_sublist src toks)
-  refine ⟨wikilinkCleanup (popTrailingBreak src toks), ?_, ?_, ?_⟩
-  · simp only [mdParse, hl, bind, Except.bind, pure, Except.pure]
-  · have : ci bs 0 = 0 := by simp [ci, charCount]
-    rw [this] at hg
-    exact hg.sublist hsub
+  have h0 : ci bs 0 = 0 := by simp [ci, charCount]
+  rw [h0] at hg
+  have hgs := hg.sublist hsub
+  refine ⟨wikilinkCleanup (popTrailingBreak src toks), ?_, hgs, ?_⟩
+  · simp only [mdParse, hl, bind, Except.bind]
+    exact clampAll_id src.length _ hgs.inb
   · intro hs t ht h0
     exact hz hs t (hsub.subset ht) h0
 
